@@ -130,6 +130,24 @@ CLAIMED = {
              "result order and one-writer-per-file are assumptions; hash-seed / address-layout independence of the rules is examined by fresh-process oracles only.",
         technique="Lean 4 proof (sorted permutations are equal; disjoint-task commutation) + differential correspondence + PYTHONHASHSEED / worker-count oracles",
     ),
+    "C14": dict(
+        text="Machine-checked composition of the C10/C20 theorems for sub/subn = fix(max_iter=1) over the match stream: no yields -> the source unchanged; the result is "
+             "the source or the simultaneous replacement of the scheduled non-overlapping matches with every untouched stretch verbatim in order; count bounds the "
+             "yielded matches; ignored lines occur verbatim; the result is valid for valid input. 6 theorems.",
+        design="4/C14",
+        note="Trusted: Lean kernel; scheduler/splice models tied by suite sub (the real match stream of find_replace scheduled and spliced by the model vs the real "
+             "subn); template instantiation is taken from the real code; 'tree = source tree with nodes replaced' is decided by the AST oracle only.",
+        technique="Lean 4 proof (composition) + differential correspondence on the real match stream + AST-level reference substitution oracle",
+    ),
+    "C19": dict(
+        text="Machine-checked proof about the constructed name: a public rename never starts with an underscore and a private one always does (dunder names and _ exempt); "
+             "the statement 'the new name is a valid identifier' is FALSE of the code and carries a counterexample theorem (replayed, known finding). 3 theorems. "
+             "The scanner model of _list_words / rename_variable equals the real functions on adversarial identifiers.",
+        design="4/C19",
+        note="Trusted: Lean kernel; Style.lean tied by suite style; capture-freedom (use-site discovery against Python scoping) is NOT proved - it is examined by the "
+             "rename-behaviour oracle over adversarial programs (shadowing, kw-only parameters, global/nonlocal, generated-name collisions).",
+        technique="Lean 4 proof (scanner model, case analysis, decide) + differential correspondence + execution oracle for the renaming rules",
+    ),
 }
 
 NOT_YET = {}
